@@ -11,7 +11,7 @@
    on the CALLING thread with the recursive mutex held (host callback on the host thread re-entering
    RecvData/GetSemaphore/ClearSemaphore; ICU trigger on the DSP thread for MMIO 0x0CE).
 2. TLC, pinned models: MC_ApbpConc_pinned.cfg (DataChannel::SetDisableInterrupt without the mutex: D7 as first
-   pinned, repaired by 2b7c59d) and MC_ApbpConc_pinned_vec.cfg (ICU vector registers, known finding) must violate
+   pinned, repaired by 2b7c59d) and MC_ApbpConc_pinned_vec.cfg (ICU vector registers, repaired by c4156dd) must violate
    LocksetOK; MC_ApbpConc_mut_inside.cfg (seeded
    mutation: handler called inside the lock) must violate NoDeadlock -- keeps the model honest.
 4. Hammer (hammer_rec, plain build): millions of two-thread episodes of one to three calls per thread on a real
@@ -25,7 +25,7 @@
    has an explanation.  Three modes: base (no DSP-side writes of 0x0D4 / vector registers: must be clean),
    dis (DSP thread writes the disable-interrupt bits while the host sends: clean since fix 2b7c59d, a report
    there is a violation again), vec (DSP thread writes the
-   vector registers of irq 14 while the host triggers it with vectored delivery on).
+   vector registers of irq 14 while the host triggers it with vectored delivery on: clean since fix c4156dd).
 """
 import concurrent.futures as cf
 import json
